@@ -70,7 +70,7 @@ def monitor(kind, steps):
                     escaped = True
             elif c == E_SYNC and res == 2:
                 expect_retry(K_OTHERKAFKA, "SyncReply (undecodable assignment, ProtocolError)")
-            elif (c == E_SYNC and res == 1) or (c == E_PARTS and res == 1) or (c == E_JOIN and res == 0 and ev[5] == 2):
+            elif (c == E_SYNC and (res == 1 or 10 <= res < 100)) or (c == E_PARTS and res == 1) or (c == E_JOIN and res == 0 and ev[5] == 2):
                 escaped = True
             elif c == E_LOOKUP and res != 0:
                 if res == 1 or k <= K_OTHERKAFKA:
@@ -95,7 +95,7 @@ def monitor(kind, steps):
             fatal_k = None
         # never idle (a member that stopped itself after a fatal error is not restartable: start() after stop() is inert,
         # C17_never_idle's hypothesis `stopping = false` excludes it)
-        if st["delivered"] and c == E_SYNC and ev[2] == 0 and any(o[0] == O_SCHED and o[1] == 1 for o in out):
+        if st["delivered"] and c == E_SYNC and (ev[2] == 0 or 10 <= ev[2] < 100) and any(o[0] == O_SCHED and o[1] == 1 for o in out):
             rn_est = False      # successful sync: the heartbeat looper was (re)started
         if started and not user_stop and not internal_stop and obs[0] == 1:
             # a heartbeat looper that is armed counts only for a member that needs no rejoin (it skips its ticks otherwise)
@@ -122,9 +122,17 @@ def run(ck):
     _, wtr, _, wsteps = run_case(wk, wev)
     o = wsteps[-1]["obs"]
     idle = o[0] == 1 and o[1] == 0 and o[2] == 0 and o[3] == 0 and o[5] == 0
-    ck.finding("F-C17-2", idle, "non-Kafka exception escaping _join_and_sync (metadata load raising ValueError) is only logged: "
+    # second face (witness of C17_constructor_raises_refuted): a Consumer constructor raises inside on_join_complete - the member is
+    # "joined" and heartbeating, consumes 1 of its 3 partitions, start() Deferred outstanding, nothing surfaces
+    w2k, w2ev, _ = GL.corpus_cases()[-1]
+    _, w2tr, _, w2steps = run_case(w2k, w2ev)
+    o2 = w2steps[-1]["obs"]
+    partial = o2[0] == 1 and o2[3] == 1 and o2[6] == 1 and o2[1] == 0 and o2[2] == 0
+    ck.cov["F-C17-2_faces_observed"] = {"idle_after_metadata_ValueError": bool(idle), "joined_with_partial_consumers_after_constructor_TypeError": bool(partial)}
+    ck.finding("F-C17-2", idle or partial, "non-Kafka exception escaping _join_and_sync (metadata load raising ValueError) is only logged: "
                "start() Deferred outstanding, nothing in flight, nothing scheduled, no heartbeat", {"events": wev, "case_kind": wk,
-               "impl_trace": GL.pretty_trace(wk, wev, wtr), "obs": o, "replay_op": "history"})
+               "impl_trace": GL.pretty_trace(wk, wev, wtr), "obs": o, "second_face_events": w2ev, "second_face_trace": GL.pretty_trace(w2k, w2ev, w2tr),
+               "second_face_obs": o2, "replay_op": "history"})
 
     if thorough:
         ck.coqchk(["AV.Props.C17"])
